@@ -162,4 +162,123 @@ def C18(c):
     c.assumptions.append("L1 oracle: LinQueue monitor in 'lifo' (stacks) / 'fifo' (queues) mode; free-running histories are ordered by a global SeqCst counter read before each call and after each return")
 
 
-CHECKS = {"C02": C02, "C13": C13, "C18": C18}
+def seq_histories(seed, count, length, n, kinds):
+    """random single-thread histories over the ring API (dynamic ops are bound by the harness)"""
+    import random
+    rng = random.Random(seed)
+    out = []
+    for k in range(count):
+        ops = []
+        v = 10
+        for _ in range(length):
+            kind = rng.choice(kinds)
+            v += 1
+            if kind == "enq":
+                ops.append(op("enq_if_clear", v))
+            elif kind == "reserve":
+                ops.append(op("reserve"))
+                ops.append(op("fill_last", v))
+            elif kind in ("deq", "len", "pub_first", "unleak_last", "pub_last"):
+                ops.append(op(kind))
+        # resolve everything that is still reserved, then drain
+        ops += [op("unleak_last")] * 2 + [op("pub_first")] * 2 + [op("len")] + [op("deq")] * (n + 1) + [op("len")]
+        out.append(("h%d" % k, [ops]))
+    return out
+
+
+def rets_of(trace, run):
+    """observable results of a run; the *physical* slot index a reservation lands in is not an observable (the API returns a reference)"""
+    out = []
+    for e in extract_run(trace, run):
+        if e["k"] == "panic":
+            out.append(("panic", e["x"]))
+        elif e["k"] == "ret":
+            x = dict(e["x"]) if isinstance(e["x"], dict) else e["x"]
+            if e["fn"] == "reserve":
+                x.pop("v", None)
+            out.append((e["fn"], json.dumps(x, sort_keys=True)))
+    return out
+
+
+def differential(c, name, trace, runs, scns, base_origin=0):
+    """single-thread histories: the results at every origin / build must be those at origin 0 (C15)"""
+    by_scn = {}
+    for r in runs:
+        by_scn.setdefault(r["scn"], []).append(r)
+    groups = {}
+    for s in scns:
+        groups.setdefault(s["_hist"], []).append(s)
+    compared = 0
+    for h, ss in groups.items():
+        base = [s for s in ss if s["origin"] == base_origin]
+        if not base:
+            continue
+        ref = rets_of(trace, by_scn[base[0]["id"]][0])
+        for s in ss:
+            for r in by_scn.get(s["id"], []):
+                got = rets_of(trace, r)
+                compared += 1
+                if got != ref:
+                    first = next((i for i, (a, b) in enumerate(zip(got, ref)) if a != b), min(len(got), len(ref)))
+                    s2 = {k: v for k, v in s.items() if not k.startswith("_")}
+                    s2["explore"] = {"mode": "replay", "schedules": [r["choices"]]}
+                    c.violation("history %s answers differently when the sequence counters start at %d than at %d (operation #%d: %s vs %s)" % (
+                        h, s["origin"], base_origin, first, got[first] if first < len(got) else None, ref[first] if first < len(ref) else None),
+                        {"scenario": s2, "run": r, "events": extract_run(trace, r), "module": "Trace_LinQueue", "consts": {}, "invariant": "OriginIndependence"})
+    c.extra.setdefault("differential_comparisons", 0)
+    c.extra["differential_comparisons"] += compared
+
+
+def window_origins(n, quick):
+    lo = U32 - 2 * n
+    w = [(lo + k) % U32 for k in range(4 * n)]
+    return w if not quick else [w[i] for i in range(0, len(w), 2)] + [U32 - 1, U32 - 2]
+
+
+def conform_seq(c, name, sut, hists, n, module, consts, profile, origins, l1_consts):
+    scns = []
+    for (hname, threads) in hists:
+        for o in [0] + sorted(set(origins)):
+            s = scn("%s_%s_o%d_%s" % (name, hname, o, profile), sut, n, threads, dfs(0, 1), origin=o)
+            s["_hist"] = hname
+            scns.append(s)
+    clean = [{k: v for k, v in s.items() if not k.startswith("_")} for s in scns]
+    trace, runs, v = c.conform(clean, "%s_%s" % (name, profile), module, consts, profile=profile)
+    judge(c, clean, "%s_%s" % (name, profile), trace, runs, v, module, consts, allow_relax=False, l1_consts=l1_consts)
+    differential(c, name, trace, runs, scns)
+    return trace, runs
+
+
+def C15(c):
+    quick = c.tier == "quick"
+    # design level: every origin of the (small) counter modulus, with and without overflow checks
+    for checks in (True, False):
+        for script, procs in (("Script_resv", 2), ("Script_resv2", 2), ("Script_2p1c", 3)) + (() if quick else (("Script_2p2c", 4),)):
+            c.mc("MC_RingAtomic", "%s_%s" % (script, "chk" if checks else "nochk"), ring_consts(procs=procs, origins=ALL_ORIGINS8, relax=True, checks=checks), subst={"Script": script},
+                 invariants=RING_INV, required_actions=["MCCall"], timeout=3000, workers=10)
+    c.mc("MC_RingFullSync", "Script_2p1c", fs_consts(procs=3, origins=ALL_ORIGINS8), subst={"Script": "Script_2p1c"},
+         invariants=["InvBounds", "InvLinearizable", "InvContents", "InvLockOwner"], required_actions=["MCCall"], timeout=3000, workers=10)
+    c.mc("MC_RingAtomic", "Script_pool2", ring_consts(procs=2, origins=ALL_ORIGINS8, relax=True, prefill=True, mode="bag"), subst={"Script": "Script_pool2"}, invariants=RING_INV + ["InvOneOwner"], timeout=3000, workers=10)
+    # real code: the same histories from origin 0 and from every origin around 2^32, debug (overflow checks) and nochecks builds
+    cnt, ln = (6, 10) if quick else (40, 14)
+    for n in (2, 4):
+        origins = window_origins(n, quick)
+        hists = seq_histories(c.seed * 77 + n, cnt, ln, n, ["enq", "enq", "deq", "len", "reserve", "reserve", "pub_first", "unleak_last", "pub_last"])
+        fs_hists = seq_histories(c.seed * 79 + n, cnt, ln, n, ["enq", "enq", "deq", "len"])
+        pool_hists = [("p%d" % k, [[AL, AL, FR, AL, AL, FRL, AL, FR, FRR, AL][k % 3:] + [AL] * n + [FR] * n]) for k in range(3)]
+        for profile in ("debug", "nochecks"):
+            chk = profile == "debug"
+            conform_seq(c, "ring_atomic_n%d" % n, "ring_atomic", hists, n, "Trace_RingAtomic", ring_consts(n=n, w=64, procs=1, relax=False, checks=chk), profile, origins, lin_consts(n, 1, "fifo"))
+            conform_seq(c, "ring_fullsync_n%d" % n, "ring_fullsync", fs_hists, n, "Trace_RingFullSync", fs_consts(n=n, w=64, procs=1), profile, origins, lin_consts(n, 1, "fifo"))
+            conform_seq(c, "pool_atomic_n%d" % n, "pool_atomic", pool_hists, n, "Trace_RingAtomic", ring_consts(n=n, w=64, procs=1, relax=False, prefill=True, mode="bag", checks=chk), profile, origins,
+                        lin_consts(n, 1, "bag", prefill=True))
+    # concurrent executions started right below the wrap
+    big = U32 - 3
+    scripts_a = [("2p2c", [[E(11), E(12)], [E(21), E(22)], [D, D], [D, D]])]
+    mr, rr = (300, 150) if quick else (4000, 2000)
+    conform_ring(c, "ring_atomic_wrap", "ring_atomic", scripts_a, "Trace_RingAtomic", ring_consts, origins=(big, U32 - 1), max_runs=mr, rnd_runs=rr)
+    conform_ring(c, "ring_fullsync_wrap", "ring_fullsync", scripts_a, "Trace_RingFullSync", fs_consts, origins=(big, U32 - 1), max_runs=mr, rnd_runs=rr)
+    c.assumptions.append("the L1 oracle has no counters, so acceptance of the same history from every origin *is* origin independence; single-thread histories are additionally compared result by result with origin 0 (incl. reported lengths, panics)")
+
+
+CHECKS = {"C02": C02, "C13": C13, "C18": C18, "C15": C15}
